@@ -1,6 +1,7 @@
 // C10 monitor process: the real xtp ProgObserver<std::vector<Job>> + Job I/O
-// driven by a stub job calculator (the worker loop of
-// ParallelXJobCalc::JobOperator::Run), see DESIGN.md §5 C10.
+// + ParallelXJobCalc<std::vector<Job>> (parallelxjobcalc.cc compiled unchanged,
+// libint2::initialize/finalize stubbed) driven through a stub calculator whose
+// EvalJob only writes the ledger, see DESIGN.md §5 C10.
 //
 //   c10 worker --jobs jobs.xml --file lockfile --threads T --cache C --maxjobs M
 //              --restart PATTERN --ledger FILE --seed S [--failprob p]
@@ -20,6 +21,7 @@
 #include <sys/uio.h>
 #include <votca/tools/verif_hook.h>
 #include <votca/xtp/job.h>
+#include <votca/xtp/parallelxjobcalc.h>
 #include <votca/xtp/progressobserver.h>
 #include <votca/xtp/qmthread.h>
 
@@ -122,28 +124,40 @@ static void ledger(const char *tag, long tid, long id, long nonce, const char *e
 }
 
 typedef ProgObserver<std::vector<Job>> Obs;
-class Op : public QMThread {
+// the real thread pool and worker loop (ParallelXJobCalc::Evaluate / JobOperator::Run); only EvalJob is ours. "D" is
+// written at the end of EvalJob: the worker loop reports the result to the observer right afterwards (in memory only, the
+// job file is written by a later synchronisation), so the ledger semantics "D = evaluated, result handed over" is kept.
+class StubCalc : public ParallelXJobCalc<std::vector<Job>> {
  public:
-  Op(Index id, Obs &obs, uint64_t seed) : QMThread(true), obs_(obs), rng_(seed) { setId(id); }
-  void Run() override {
-    while (true) {
-      Job *job = obs_.RequestNextJob(*this);
-      if (job == nullptr) break;
-      long nonce = (long)getpid() * 1000000L + (++g_nonce);
-      ledger("S", getId(), job->getId(), nonce);
-      if (g_evalus > 0) usleep((useconds_t)(rng_.next() % (uint64_t)g_evalus));
-      Job::JobResult res;
-      bool fail = rng_.uni() < g_failprob;
-      res.setStatus(fail ? Job::FAILED : Job::COMPLETE);
-      res.setOutput("nonce=" + std::to_string(nonce) + ";id=" + std::to_string(job->getId()));
-      if (fail) res.setError("stub failure nonce=" + std::to_string(nonce));
-      obs_.ReportJobDone(*job, res, *this);
-      ledger("D", getId(), job->getId(), nonce, fail ? "FAILED" : "COMPLETE");
-    }
+  explicit StubCalc(uint64_t seed, long T) {
+    for (long i = 0; i < T; ++i) rng_.emplace_back((uint64_t)(seed * 131 + i + 7));
   }
+  std::string Identify() const override { return "c10stub"; }
+  void WriteJobFile(const Topology &) override {}
+  void ReadJobFile(Topology &) override {}
+  void CustomizeLogger(QMThread &t) override {
+    ParallelXJobCalc<std::vector<Job>>::CustomizeLogger(t);
+    t.getLogger().setReportLevel(Log::error);
+  }
+  Job::JobResult EvalJob(const Topology &, Job &job, QMThread &th) override {
+    vfh::Rng &rng = rng_.at((size_t)th.getId());
+    long nonce = (long)getpid() * 1000000L + (++g_nonce);
+    ledger("S", th.getId(), job.getId(), nonce);
+    if (g_evalus > 0) usleep((useconds_t)(rng.next() % (uint64_t)g_evalus));
+    Job::JobResult res;
+    bool fail = rng.uni() < g_failprob;
+    res.setStatus(fail ? Job::FAILED : Job::COMPLETE);
+    res.setOutput("nonce=" + std::to_string(nonce) + ";id=" + std::to_string(job.getId()));
+    if (fail) res.setError("stub failure nonce=" + std::to_string(nonce));
+    ledger("D", th.getId(), job.getId(), nonce, fail ? "FAILED" : "COMPLETE");
+    return res;
+  }
+
+ protected:
+  void ParseSpecificOptions(const tools::Property &) override {}
+
  private:
-  Obs &obs_;
-  vfh::Rng rng_;
+  std::vector<vfh::Rng> rng_;
 };
 
 static std::string abspath(const std::string &p) {
@@ -186,15 +200,17 @@ int main(int argc, char **argv) {
   try {
     Obs obs;
     obs.InitCmdLineOpts(vm);
-    Op master(-1, obs, (uint64_t)seed);
-    master.getLogger().setReportLevel(Log::error);
-    obs.InitFromProgFile(file, master);
-    std::vector<std::unique_ptr<Op>> ops;
-    for (long i = 0; i < T; ++i) ops.push_back(std::make_unique<Op>(i, obs, (uint64_t)(seed * 131 + i + 7)));
-    for (auto &o : ops) o->Start();
-    for (auto &o : ops) o->WaitDone();
-    ops.clear();
-    obs.SyncWithProgFile(master);
+    StubCalc calc((uint64_t)seed, T);
+    calc.setnThreads(T);
+    calc.setOpenMPThreads(1);
+    calc.setProgObserver(&obs);
+    tools::Property opts;
+    opts.add("job_file", file);
+    opts.add("map_file", "");
+    calc.Initialize(opts);
+    // the topology is only handed through to EvalJob (which ignores it): no object is constructed
+    alignas(64) static char topbuf[sizeof(Topology)];
+    calc.EvaluateFrame(*reinterpret_cast<const Topology *>(topbuf));
   } catch (std::exception &e) {
     fprintf(stderr, "c10 worker %d: exception: %s\n", (int)getpid(), e.what());
     ledger("X", -1, -1, -1, "exception");
@@ -203,7 +219,7 @@ int main(int argc, char **argv) {
   if (A.has("report")) {
     vfh::J j;
     j.s("t", "worker").i("pid", getpid()).i("bytes_to_target", g_written.load()).i("sync_events", g_sync_events.load()).i("rc", rc);
-    std::cout << j.str() << std::endl;
+    std::cout << "\n" << j.str() << std::endl;
   }
   return rc;
 }
